@@ -61,6 +61,16 @@ Render(i) ==
   LET c == CivilFromDays(i.d) IN
   Dig4(c.y) \o Dig2(c.m) \o Dig2(c.d) \o <<84>> \o Dig2(i.s \div 3600) \o Dig2((i.s \div 60) % 60) \o Dig2(i.s % 60)
 
+\* reading the text back: [ok, i]; ok iff txt is exactly the rendering of an instant
+DigVal(c) == IF c >= 48 /\ c <= 57 THEN c - 48 ELSE -100000
+Num2(t, i) == DigVal(t[i]) * 10 + DigVal(t[i + 1])
+ParseInst(t) ==
+  IF Len(t) # 15 \/ t[9] # 84 \/ \E i \in (1..15) \ {9} : DigVal(t[i]) < 0 THEN [ok |-> FALSE, i |-> Inst(0, 0)]
+  ELSE LET y == Num2(t, 1) * 100 + Num2(t, 3)  m == Num2(t, 5)  d == Num2(t, 7)
+           h == Num2(t, 10)  mi == Num2(t, 12)  sc == Num2(t, 14) IN
+       IF ~ValidDate(Date(y, m, d)) \/ h > 23 \/ mi > 59 \/ sc > 59 THEN [ok |-> FALSE, i |-> Inst(0, 0)]
+       ELSE [ok |-> TRUE, i |-> Inst(DaysFromCivil(y, m, d), h * 3600 + mi * 60 + sc)]
+
 RECURSIVE LexLess(_, _)
 LexLess(a, b) == IF Len(a) = 0 THEN Len(b) > 0 ELSE IF Len(b) = 0 THEN FALSE
                  ELSE IF Head(a) # Head(b) THEN Head(a) < Head(b) ELSE LexLess(Tail(a), Tail(b))
